@@ -11,7 +11,7 @@ from .smt import BOOL, FL, INT, REF
 from .values import T, Ty, Unsupported, Val, vbool, vfl, vint, vnone, vref, vstr, vtuple
 
 BUILTIN_NAMES = {
-    "len", "isinstance", "max", "min", "sum", "sorted", "reversed", "range", "enumerate", "zip", "abs", "int",
+    "len", "isinstance", "getattr", "max", "min", "sum", "sorted", "reversed", "range", "enumerate", "zip", "abs", "int",
     "round", "str", "list", "dict", "all", "any", "isnan", "float", "bool", "print", "set", "tuple", "type",
     "ValueError", "NotImplementedError", "open", "next", "id", "hash", "copy", "deepcopy", "pearsonr",
 }
@@ -98,7 +98,7 @@ def as_list(ex, v, fr, node=None):
         raise Unsupported("iteration over a tuple")
     if k == "dict":
         return dict_keys(ex, v)
-    if k == "oarr":
+    if k == "oarr" or (k == "arr" and v.ty.cls == "B"):
         from . import npmodels
         return npmodels.rows_as_list(ex, v, fr)
     raise Unsupported(f"iteration over {v.ty} at {src.loc(fr.fi, node) if node is not None else ''}")
@@ -1193,6 +1193,8 @@ def _dget(ex, fv_, args, kwargs, fr, node):
     val = ex.rd(d.t, ks, ft)
     if spec.field_type(cls, f"$always${ks}") is not None:
         return val
+    if default.ty.kind == "none" and val.ty.kind == "bool":
+        default = vbool(False)       # an option that is absent or None is falsy; only its truth value is used
     return ex.ite(has, val, default)
 
 
